@@ -156,17 +156,17 @@ func classify(r hsResult, keys map[string]crypto.PubKey) string {
 // session runs A (and B unless attacker != nil) through the handshake.
 //   - with B: A <-> mitm <-> B, messages rewritten by t
 //   - without B: attacker(s, conn to A) plays the peer
-func session(k int, seed uint32, ka, kb, km crypto.PrivKeyEd25519, t tamperFn, attacker func(s *seen, c *end)) (hsOutcome, *seen) {
+func session(k int, seed uint32, join bool, ka, kb, km crypto.PrivKeyEd25519, t tamperFn, attacker func(s *seen, c *end)) (hsOutcome, *seen) {
 	s := &seen{eph: map[string][32]byte{}, ephRaw: map[string][]byte{}, authRaw: map[string][]byte{}, regions: map[string]string{}}
 	keys := map[string]crypto.PubKey{"A": ka.PubKey(), "B": kb.PubKey(), "M": km.PubKey()}
-	ea, ma, _, _ := duplex(k, seed, false)
+	ea, ma, _, _ := duplex(k, seed, false, join)
 	out := hsOutcome{b: "-"}
 	ca := runHS(ea, ka)
 	var cb chan hsResult
 	var wg sync.WaitGroup
 	var eb, mb *end
 	if attacker == nil {
-		mb, eb, _, _ = duplex(k, seed+5, false)
+		mb, eb, _, _ = duplex(k, seed+5, false, join)
 		cb = runHS(eb, kb)
 		wg.Add(2)
 		go relay(s, "AB", ma, mb, t, &wg)
@@ -236,11 +236,12 @@ func randKey32() [32]byte {
 	return k
 }
 
-// hs scen=<name> k=K seed=S [dir=AB|BA|both] [msg=ephAB|ephBA|authAB|authBA off=<byte index, clamped> bit=<0..7>]
+// hs scen=<name> k=K seed=S j=0|1 [dir=AB|BA|both] [msg=ephAB|ephBA|authAB|authBA off=<byte index, clamped> bit=<0..7>]
 func (e *exec) hsOp(toks []string) string {
 	e.closeAll()
 	scen := argS(toks, "scen")
 	k, seed := atoi(argS(toks, "k")), uint32(atoi(argS(toks, "seed")))
+	join := argS(toks, "j") == "1"
 	ka, kb, km := crypto.GenPrivKeyEd25519(), crypto.GenPrivKeyEd25519(), crypto.GenPrivKeyEd25519()
 	var t tamperFn = passThrough
 	var attacker func(s *seen, c *end)
@@ -339,17 +340,26 @@ func (e *exec) hsOp(toks []string) string {
 			return o // the message of the opposite direction goes to this direction's receiver
 		}
 	case "coalesce":
-		k = 0 // the whole segment is handed over by one Read // nothing is altered: B's eph key and auth frame merely reach A in ONE segment (as TCP may deliver them)
-		var held []byte
+		// nothing is altered: the eph key and the auth frame of direction dir (or both) merely reach the receiver in ONE
+		// segment (as TCP may deliver them); with k > 0 the receiver's reads then cut that segment at arbitrary places,
+		// also across the key / frame boundary
+		held := map[string][]byte{}
 		t = func(s *seen, d string, idx int, msg []byte) []byte {
-			if d != "BA" {
+			if dir != "both" && dir != d && dir != "" {
+				return msg
+			}
+			if dir == "" && d != "BA" {
 				return msg
 			}
 			if idx == 0 {
-				held = msg
+				s.mu.Lock()
+				held[d] = msg
+				s.mu.Unlock()
 				return []byte{}
 			}
-			return append(append([]byte{}, held...), msg...)
+			s.mu.Lock()
+			defer s.mu.Unlock()
+			return append(append([]byte{}, held[d]...), msg...)
 		}
 	case "drop":
 		target := argS(toks, "msg")
@@ -368,7 +378,7 @@ func (e *exec) hsOp(toks []string) string {
 		attacker = func(s *seen, c *end) { io.Copy(c, c) }
 	case "replay", "replayeph":
 		// an honest session of B is recorded first; then its auth frame (and, for replayeph, its eph key) is replayed to A
-		_, rec := session(k, seed+9, crypto.GenPrivKeyEd25519(), kb, km, passThrough, nil)
+		_, rec := session(k, seed+9, join, crypto.GenPrivKeyEd25519(), kb, km, passThrough, nil)
 		rec.mu.Lock()
 		oldEph, oldAuth := rec.ephRaw["BA"], rec.authRaw["BA"]
 		rec.mu.Unlock()
@@ -387,7 +397,7 @@ func (e *exec) hsOp(toks []string) string {
 	default:
 		return "bad-op"
 	}
-	out, s := session(k, seed, ka, kb, km, t, attacker)
+	out, s := session(k, seed, join, ka, kb, km, t, attacker)
 	if s.relayWrong {
 		return "bad-op"
 	}
